@@ -21,7 +21,7 @@ rc, out = sh('git -C /repo worktree add -q --detach %s HEAD' % wt)
 if rc != 0:
     print(out)
     sys.exit(2)
-env = dict(os.environ, NV_REPO=wt, NV_OUT='/tmp/seed/nvout-regress', CARGO_NET_OFFLINE='true')
+env = dict(os.environ, NV_REPO=wt, NV_OUT='/tmp/seed/nvout-regress-%d' % os.getpid(), CARGO_NET_OFFLINE='true')
 bad = 0
 try:
     for tag in tags:
